@@ -38,6 +38,85 @@ Proof.
   destruct l as [|x l]; cbn [skipn List.length]; [reflexivity | apply IH].
 Qed.
 
+(* facts about a well-formed node *)
+Lemma wf_facts nd h : wf nd h ->
+  (n_first nd <= S (snap_index nd))%nat /\ (snap_index nd <= List.length h)%nat
+  /\ log_last nd = List.length h
+  /\ snap_db nd = replay (step (n_fk nd)) (firstn (snap_index nd) h) empty_db
+  /\ replay (step (n_fk nd)) (skipn (S (snap_index nd) - n_first nd) (n_log nd)) (snap_db nd) = applied (n_fk nd) h.
+Proof.
+  intros [Hf Hl Hs]. unfold snap_index, snap_db, log_last.
+  assert (Hlen : List.length (n_log nd) = (List.length h - (n_first nd - 1))%nat) by (rewrite Hl; apply length_skipn).
+  destruct (n_snap nd) as [[k d]|].
+  - destruct Hs as (Hk1 & Hk2 & Hd). split; [lia|]. split; [lia|]. split; [lia|]. split; [exact Hd|].
+    rewrite Hl, Hd. unfold applied.
+    replace (S k - n_first nd)%nat with (k - (n_first nd - 1))%nat by lia. apply replay_split2. lia.
+  - rewrite Hs in *. split; [lia|]. split; [lia|]. split; [lia|]. split; [reflexivity|]. rewrite Hl. reflexivity.
+Qed.
+
+Lemma replay_not_missing nd h : wf nd h ->
+  Nat.ltb (S (snap_index nd)) (n_first nd) && Nat.leb (S (snap_index nd)) (log_last nd) = false.
+Proof.
+  intros H. destruct (wf_facts nd h H) as (H1 & _). 
+  assert (E : Nat.ltb (S (snap_index nd)) (n_first nd) = false) by (apply PeanoNat.Nat.ltb_ge; lia).
+  rewrite E. reflexivity.
+Qed.
+
+(* the node after the first n effects of an attempt *)
+Definition node_written (nd : node) (h : list (entry cmd)) (peers : list server) : node :=
+  {| n_fk := n_fk nd; n_snap := Some (List.length h, applied (n_fk nd) h); n_first := n_first nd; n_log := n_log nd; n_conf := peers |}.
+Definition node_done (nd : node) (h : list (entry cmd)) (peers : list server) : node :=
+  {| n_fk := n_fk nd; n_snap := Some (List.length h, applied (n_fk nd) h); n_first := S (List.length h); n_log := []; n_conf := peers |}.
+
+Lemma run_prefix nd h peers n : wf nd h ->
+  exists a, run peers (firstn n recovery_steps) (start nd) = (a, true)
+    /\ a_node a = match n with
+                  | 0%nat | 1%nat | 2%nat | 3%nat => nd
+                  | 4%nat => node_written nd h peers
+                  | _ => node_done nd h peers
+                  end.
+Proof.
+  intros Hwf. destruct (wf_facts nd h Hwf) as (H1 & H2 & H3 & H4 & H5).
+  pose proof (replay_not_missing nd h Hwf) as Hm.
+  assert (Hmax : Nat.max (snap_index nd) (log_last nd) = List.length h) by lia.
+  assert (Hfull : forall m, firstn (S (S (S (S (S m))))) recovery_steps = recovery_steps) by (intros [|m]; reflexivity).
+  destruct n as [|[|[|[|[|n]]]]]; [| | | | |rewrite Hfull];
+    cbn [firstn recovery_steps run do_step start a_node a_scratch a_last];
+    rewrite ?Hm; cbn [run do_step a_node a_scratch a_last n_fk n_snap n_first n_log n_conf];
+    eexists; (split; [reflexivity|]); try reflexivity.
+  - cbn [a_node]. unfold node_written. rewrite Hmax, H5. reflexivity.
+  - cbn [a_node]. unfold node_done. rewrite Hmax, H5. reflexivity.
+Qed.
+
+Lemma firstn_all2 {A} (l : list A) : firstn (List.length l) l = l.
+Proof. induction l; cbn [firstn List.length]; congruence. Qed.
+Lemma skipn_all2 {A} (l : list A) : skipn (List.length l) l = [].
+Proof. induction l; cbn [skipn List.length]; congruence. Qed.
+
+Lemma wf_written nd h peers : wf nd h -> wf (node_written nd h peers) h.
+Proof.
+  intros Hwf. destruct (wf_facts nd h Hwf) as (H1 & H2 & _). destruct Hwf as [Hf Hl Hs].
+  split; cbn [node_written n_first n_log n_snap n_fk]; [exact Hf | exact Hl |].
+  repeat split; [lia | lia |]. unfold applied. rewrite firstn_all2. reflexivity.
+Qed.
+Lemma wf_done nd h peers : wf nd h -> wf (node_done nd h peers) h.
+Proof.
+  intros Hwf. split; cbn [node_done n_first n_log n_snap n_fk]; [lia | |].
+  - replace (S (List.length h) - 1)%nat with (List.length h) by lia. rewrite skipn_all2. reflexivity.
+  - repeat split; [lia | lia |]. unfold applied. rewrite firstn_all2. reflexivity.
+Qed.
+
+(* the invariant: whatever an attempt got done before it failed or died, the node is still a view of the whole history
+   — the log is deleted only once the snapshot covering it is visible *)
+Lemma partial_wf nd h peers n : wf nd h -> wf (partial peers n nd) h /\ n_fk (partial peers n nd) = n_fk nd.
+Proof.
+  intros Hwf. unfold partial. destruct (negb (check_configuration peers)); [split; [exact Hwf | reflexivity]|].
+  destruct (run_prefix nd h peers n Hwf) as (a & Hr & Ha). rewrite Hr. cbn [fst]. rewrite Ha.
+  destruct n as [|[|[|[|[|n]]]]]; try (split; [exact Hwf | reflexivity]).
+  - split; [apply wf_written; exact Hwf | reflexivity].
+  - split; [apply wf_done; exact Hwf | reflexivity].
+Qed.
+
 Theorem recover_keeps_data nd h peers :
   wf nd h -> check_configuration peers = true ->
   exists nd', recover nd peers = Recovered nd'
@@ -46,43 +125,60 @@ Theorem recover_keeps_data nd h peers :
     /\ n_log nd' = []
     /\ exists d, n_snap nd' = Some (List.length h, d).
 Proof.
-  intros [Hf Hl Hs] Hc. unfold recover. rewrite Hc. cbn [negb].
-  assert (Hlen : List.length (n_log nd) = (List.length h - (n_first nd - 1))%nat) by (rewrite Hl; apply length_skipn).
-  destruct (n_snap nd) as [[k d]|] eqn:Hsn.
-  - destruct Hs as (Hk1 & Hk2 & Hd).
-    assert (Hlast : (n_first nd + List.length (n_log nd) - 1)%nat = List.length h) by lia.
-    rewrite Hlast.
-    assert (Hlt : Nat.ltb (S k) (n_first nd) = false) by (apply PeanoNat.Nat.ltb_ge; lia).
-    rewrite Hlt. cbn [andb].
-    eexists. split; [reflexivity|].
-    assert (Hmax : Nat.max k (List.length h) = List.length h) by lia.
-    unfold contents. cbn [n_snap n_fk n_first n_log n_conf]. rewrite Hmax.
-    repeat split; [|eexists; reflexivity].
-    replace (S (List.length h) - S (List.length h))%nat with 0%nat by lia. cbn [skipn replay fold_left].
-    rewrite Hl, Hd. unfold applied.
-    replace (S k - n_first nd)%nat with (k - (n_first nd - 1))%nat by lia.
-    apply replay_split2. lia.
-  - assert (Hlast : (n_first nd + List.length (n_log nd) - 1)%nat = List.length h) by lia.
-    rewrite Hlast, Hs. cbn [Nat.ltb Nat.leb andb].
-    eexists. split; [reflexivity|].
-    unfold contents. cbn [n_snap n_fk n_first n_log n_conf]. rewrite PeanoNat.Nat.max_0_l.
-    repeat split; [|eexists; reflexivity].
-    replace (S (List.length h) - S (List.length h))%nat with 0%nat by lia. cbn [skipn replay fold_left].
-    rewrite Hl, Hs. cbn [Nat.sub skipn]. reflexivity.
+  intros Hwf Hc. unfold recover. rewrite Hc. cbn [negb].
+  destruct (run_prefix nd h peers 5%nat Hwf) as (a & Hr & Ha). change (firstn 5%nat recovery_steps) with recovery_steps in Hr. rewrite Hr.
+  exists (a_node a). rewrite Ha. split; [reflexivity|]. unfold node_done.
+  repeat split; [|eexists; reflexivity].
+  unfold contents. cbn [n_snap n_fk n_first n_log].
+  replace (S (List.length h) - S (List.length h))%nat with 0%nat by lia. reflexivity.
 Qed.
 
 (* before recovery the node already held exactly that (restart = snapshot + later entries) *)
 Lemma contents_applied nd h : wf nd h -> contents nd = applied (n_fk nd) h.
 Proof.
-  intros [Hf Hl Hs]. unfold contents, applied. destruct (n_snap nd) as [[k d]|].
-  - destruct Hs as (Hk1 & Hk2 & ->). rewrite Hl.
-    replace (S k - n_first nd)%nat with (k - (n_first nd - 1))%nat by lia.
-    apply replay_split2. lia.
-  - rewrite Hl, Hs. reflexivity.
+  intros Hwf. destruct (wf_facts nd h Hwf) as (_ & _ & _ & _ & H5). unfold contents.
+  unfold snap_index, snap_db in H5. destruct (n_snap nd) as [[k d]|]; exact H5.
 Qed.
 
 Theorem recover_rejects nd peers : check_configuration peers = false -> recover nd peers = Rejected.
 Proof. intros H. unfold recover. rewrite H. reflexivity. Qed.
+
+(* any number of attempts that fail or die after any number of effects, then one that completes *)
+Theorem recover_retry nd h peers (fails : list nat) :
+  wf nd h -> check_configuration peers = true ->
+  let nd1 := fold_left (fun n k => partial peers k n) fails nd in
+  exists nd', recover nd1 peers = Recovered nd'
+    /\ contents nd' = applied (n_fk nd) h
+    /\ n_conf nd' = peers
+    /\ n_log nd' = []
+    /\ exists d, n_snap nd' = Some (List.length h, d).
+Proof.
+  intros Hwf Hc. cbn zeta.
+  assert (H : wf (fold_left (fun n k => partial peers k n) fails nd) h
+              /\ n_fk (fold_left (fun n k => partial peers k n) fails nd) = n_fk nd).
+  { revert nd Hwf. induction fails as [|k fails IH]; intros nd Hwf; cbn [fold_left]; [split; [exact Hwf|reflexivity]|].
+    destruct (partial_wf nd h peers k Hwf) as [Hw Hfk]. destruct (IH _ Hw) as [Hw' Hfk']. split; [exact Hw' | congruence]. }
+  destruct H as [Hw Hfk]. rewrite <- Hfk. apply recover_keeps_data; assumption.
+Qed.
+
+(* the driver's failed attempts are such attempts *)
+Theorem recover_retry_points nd h peers (fs : list (point * bool)) :
+  wf nd h -> check_configuration peers = true ->
+  let nd1 := fold_left (failed_attempt peers) fs nd in
+  exists nd', recover nd1 peers = Recovered nd'
+    /\ contents nd' = applied (n_fk nd) h
+    /\ n_conf nd' = peers
+    /\ n_log nd' = []
+    /\ exists d, n_snap nd' = Some (List.length h, d).
+Proof.
+  intros Hwf Hc. cbn zeta.
+  assert (H : wf (fold_left (failed_attempt peers) fs nd) h /\ n_fk (fold_left (failed_attempt peers) fs nd) = n_fk nd).
+  { revert nd Hwf. induction fs as [|f fs IH]; intros nd Hwf; cbn [fold_left]; [split; [exact Hwf|reflexivity]|].
+    unfold failed_attempt at 2 4.
+    destruct (partial_wf nd h peers (if reached nd (fst f) then steps_done (fst f) else 5%nat) Hwf) as [Hw Hfk].
+    destruct (IH _ Hw) as [Hw' Hfk']. split; [exact Hw' | congruence]. }
+  destruct H as [Hw Hfk]. rewrite <- Hfk. apply recover_keeps_data; assumption.
+Qed.
 
 (* ------------------------------------------------------------------ the configuration check *)
 
@@ -183,6 +279,16 @@ Example ex_recover :
   /\ recover ex_node [ {| sv_id := "n1"; sv_addr := "localhost:4002"; sv_voter := false |} ] = Rejected
   /\ recover ex_node (ex_peers ++ [ {| sv_id := "n3"; sv_addr := "10.0.0.2:4002"; sv_voter := true |} ]) = Rejected
   /\ recover ex_node [ {| sv_id := "n1"; sv_addr := "http://localhost:4002"; sv_voter := true |} ] = Rejected.
+Proof. vm_compute. auto. Qed.
+(* three attempts fail or die (snapshot cannot be created; died after the snapshot became visible; died after the log
+   was deleted), the fourth completes: same data, snapshot at the last index *)
+Example ex_retry :
+  match recover (fold_left (failed_attempt ex_peers) [(PCreate, false); (PAfterSinkClose, true); (PAfterDeleteRange, true)] ex_node) ex_peers with
+  | Recovered nd' => contents nd' = {| parents := [1; 2]; children := [(1, 1)] |} /\ n_snap nd' = Some (6%nat, contents nd') /\ n_log nd' = []
+  | Rejected => False
+  end
+  /\ n_log (failed_attempt ex_peers ex_node (PAfterSinkClose, true)) = n_log ex_node
+  /\ n_log (failed_attempt ex_peers ex_node (PAfterDeleteRange, true)) = [].
 Proof. vm_compute. auto. Qed.
 (* with foreign keys off the same history keeps the dangling row *)
 Example ex_fk_off : applied false ex_hist = {| parents := [2; 3]; children := [(1, 1); (2, 99)] |}.
